@@ -2,7 +2,6 @@ package filter
 
 import (
 	"github.com/mgtv-tech/redis-GunYu/pkg/redis"
-	"sort"
 )
 
 type Range struct {
@@ -49,13 +48,34 @@ func (rl *RangeList) IsSlotInList(key string) bool {
 
 func (rl *RangeList) InsertSlotInList(left, right uint16) {
 	if left <= right {
+		// Keep the list sorted and disjoint: IsSlotInList binary-searches it,
+		// which is only correct when no two ranges overlap or nest.
 		newRange := &Range{Left: left, Right: right}
-		i := sort.Search(len(rl.list), func(i int) bool {
-			return rl.list[i].Left > left
-		})
-		rl.list = append(rl.list, nil)
-		copy(rl.list[i+1:], rl.list[i:])
-		rl.list[i] = newRange
+		merged := make([]*Range, 0, len(rl.list)+1)
+		inserted := false
+		for _, r := range rl.list {
+			switch {
+			case r.Right < newRange.Left:
+				merged = append(merged, r)
+			case newRange.Right < r.Left:
+				if !inserted {
+					merged = append(merged, newRange)
+					inserted = true
+				}
+				merged = append(merged, r)
+			default:
+				if r.Left < newRange.Left {
+					newRange.Left = r.Left
+				}
+				if r.Right > newRange.Right {
+					newRange.Right = r.Right
+				}
+			}
+		}
+		if !inserted {
+			merged = append(merged, newRange)
+		}
+		rl.list = merged
 		if left < rl.minLeft {
 			rl.minLeft = left
 		}
